@@ -218,6 +218,7 @@ func checkC08(c *Ctx) {
 
 	c.ruleVisibility("C08-R6", d, 3)
 	c.ruleDelegateWiring("C08-R7", d)
+	c.ruleClockResolution("C08-R8")
 }
 
 func derefNamedName(t types.Type) string {
